@@ -5,7 +5,7 @@ import pipe
 
 RULE = ("ALL lists of length 1..4 (quick) / 1..5 (thorough) made of cheap valid reactions with one malformed row of each kind "
         "(unparsable side, no separator, reagent-style A>B>C, two separators, empty string, empty side, missing value) at every "
-        "position, plus lists with two malformed rows, x all batch sizes 1..n+1; list-of-str, list-of-dict, CSV and JSON sources; "
+        "position, plus lists with two malformed rows, plus stage-mix lists of valid rows (solved early / completed only by the MCS stage and the second rule-based run / staying open), x all batch sizes 1..n+1; list-of-str, list-of-dict, CSV and JSON sources; "
         "the CLI's impute() with --out-columns (in-process; thorough adds real `python -m synrbl run` processes).  String-only "
         "runs are replayed through Model/Batch.rebalance over Model/Pipeline.run inside Coq (rows + merged statistics).  "
         "Non-trivial: a run containing at least one malformed row; distinct = distinct (input list, batch size, source form).")
@@ -97,6 +97,16 @@ def run(ctx):
     ctx.extra["exhaustive_scope"] = "every position of every malformed kind in lists of length 1..%d x every batch size 1..n+1" % L
     replay = []
     nrun = 0
+    # stage mix (valid rows only): rows solved early before rows that only the later passes complete (MCS, second rule-based run
+    # after the post-processing) and rows that stay open -- whatever a later pass writes back must find its own row
+    BAL, EST, DM1, DM2, OP1, OP2, RED = ("CCO.CC(=O)O>>CC(=O)OCC.O", "CC(=O)OCC>>CC(=O)O", "COc1ccccc1>>Oc1ccccc1", "COc1ccc(C)cc1>>Oc1ccc(C)cc1",
+                                         "CC>>CCCO", "CCN>>CCCN", "CC(=O)C>>CC(O)C")
+    mixes = [[BAL, EST, OP1], [RED, DM1, BAL, OP1, EST, DM2, OP2], [BAL, DM1], [OP1, BAL, EST], [RED, BAL, DM2, OP2]]
+    if not ctx.quick():
+        for _ in range(12):
+            m = [BAL, EST, DM1, DM2, OP1, OP2, RED]; rng.shuffle(m); mixes.append(m[:rng.randint(3, 7)])
+    cases = [(m, []) for m in mixes] + cases
+    ctx.count("inputs", "stage_mix_lists", len(mixes))
     for inputs, kinds in cases:
         sizes = list(range(1, len(inputs) + 2))
         if ctx.quick() and len(inputs) >= 3:
@@ -116,14 +126,17 @@ def run(ctx):
                     rows, err = [], "%s: %s" % (type(e).__name__, e)
             nrun += 1
             ctx.evaluations += 1
-            if kinds:
+            if kinds or (len(inputs) >= 2 and "CC>>CCCO" in inputs):
                 ctx.nontrivial.add((json.dumps(inputs), bs, "list"))
             check(ctx, "list-of-str" if stringy else "list-of-dict", inputs, bs, rows, err, kinds)
     # other source forms + CLI on a subset
     tmp = tempfile.mkdtemp(prefix="synrbl_c05_")
     try:
         sub = [c for c in cases if all(isinstance(s, str) for s in c[0])]
-        sub = [(["C>>C", "XX>>C", "CC>>CC"], ["unparsable"]), (["CCO>>CCO", "C>>C", "C>>C1CC", "CC>>CC"], ["unparsable-product"])] + rng.sample(sub, 12 if ctx.quick() else 60)
+        sub = [(["C>>C", "XX>>C", "CC>>CC"], ["unparsable"]), (["CCO>>CCO", "C>>C", "C>>C1CC", "CC>>CC"], ["unparsable-product"]),
+               # the same reaction in several rows (also once atom-mapped), each with its own pass-through values
+               (["C>>C", "CC>>CC", "C>>C", "[CH3:1][OH:2]>>[CH3:1][OH:2]", "CO>>CO", "C>>C"], []),
+               (["CC(=O)C>>CC(O)C", "CC(=O)C>>CC(O)C", "CC>>CC"], [])] + rng.sample(sub, 12 if ctx.quick() else 60)
         for k, (inputs, kinds) in enumerate(sub):
             recs = [{"reaction": s, "tag": "tag%d" % i} for i, s in enumerate(inputs)]
             if k % 2 == 1:      # every other case: the user's rows carry their own 1-based "id" and a "name" column
@@ -163,12 +176,18 @@ def run(ctx):
                     l2, p2 = (g["input_reaction"].split(">>") + [""])[:2]
                     if src_s.count(">>") != 1 or pipe.canon_multiset(l) != pipe.canon_multiset(l2) or pipe.canon_multiset(p) != pipe.canon_multiset(p2):
                         mis.append({"tag": g.get("tag"), "tag_belongs_to": src_s, "row_describes": g["input_reaction"]})
+                if len(got) == len(inputs):      # nothing dropped: row i carries the pass-through values of input row i
+                    for i, g in enumerate(got):
+                        if g.get("tag") != "tag%d" % i:
+                            mis.append({"row": i, "tag_written": g.get("tag"), "expected": "tag%d" % i})
                 if "id" in recs[0]:
                     for g in got:
                         if g.get("tag", "").startswith("tag") and str(g.get("id")) != str(int(g["tag"][3:]) + 1):
                             mis.append({"tag": g.get("tag"), "id_written": g.get("id")})
                 if mis:
-                    ctx.fail("cli-passthrough-misaligned", {"form": "cli", "inputs": inputs}, {"misaligned": mis[:3]})
+                    # the known mechanism needs a dropped row (zip of all inputs with the surviving outputs); with nothing dropped it is another defect
+                    dropped = any((not isinstance(x, str)) or x.count(">>") != 1 or pipe.balanced(x) is None for x in inputs)
+                    ctx.fail("cli-passthrough-misaligned" if dropped else "cli-passthrough-on-wrong-row", {"form": "cli", "inputs": inputs}, {"misaligned": mis[:3]})
                 elif err is None and len(got) != len(inputs):
                     # a dropped LAST row shifts nothing: it is the known mechanism (unparsable side) seen through the CLI
                     dropped_known = any(isinstance(x, str) and x.count(">>") == 1 and pipe.balanced(x) is None for x in inputs)
